@@ -16,7 +16,7 @@ use ciphercore_base::data_values::Value;
 use ciphercore_base::graphs::*;
 use ciphercore_base::mpc::mpc_compiler::IOStatus;
 use serde_json::json;
-use std::collections::HashMap;
+use std::collections::{HashMap, HashSet};
 
 pub const HEADER: &str = "From CC Require Import Base.Prelude Base.Scalar Base.Ty Base.Shape Graph.Value Graph.IR Model.Knows Model.MaskCheck.";
 
@@ -31,7 +31,13 @@ fn bit_program(kind: usize) -> Prog {
         0 => ins[0].multiply(ins[1].clone()).unwrap(),
         1 => ins[0].multiply(ins[1].clone()).unwrap().add(ins[2].clone()).unwrap(),
         2 => ins[0].add(ins[1].clone()).unwrap(),
-        _ => ins[0].add(ins[1].clone()).unwrap().multiply(ins[2].clone()).unwrap(),
+        3 => ins[0].add(ins[1].clone()).unwrap().multiply(ins[2].clone()).unwrap(),
+        // a product next to an ordinary sharing inside a multi-input local operation (the planner
+        // has to reshare the product before the tuple is revealed)
+        4 => g.create_tuple(vec![ins[0].multiply(ins[1].clone()).unwrap(), ins[2].clone()]).unwrap(),
+        5 => g.create_tuple(vec![ins[2].clone(), ins[0].multiply(ins[1].clone()).unwrap()]).unwrap(),
+        6 => g.create_vector(t.clone(), vec![ins[0].multiply(ins[1].clone()).unwrap(), ins[2].clone()]).unwrap(),
+        _ => g.create_tuple(vec![ins[0].multiply(ins[1].clone()).unwrap(), ins[0].add(ins[2].clone()).unwrap()]).unwrap(),
     };
     g.set_output_node(o).unwrap();
     g.finalize().unwrap();
@@ -42,20 +48,57 @@ fn bit_program(kind: usize) -> Prog {
 
 fn bitval(b: u8) -> Value { Value::from_scalar(b, BIT).unwrap() }
 
-/// One exact run: tape = assignment of bits to PRF cells in order of first use.
-fn run_view(c: &Compiled, p: &Prog, owners: &[IOStatus], xs: &[u8], tape: u64, observer: usize, ncells: &mut usize) -> (Vec<u8>, Option<u8>) {
+/// Key values that the protocol gives a party: for a PRF whose key is delivered by a `Send(s, r)`
+/// node, the values parties s and r hold there; for a key that is never sent, every party's own.
+/// The other evaluations of PRF nodes are the "junk" computations a party performs on keys it
+/// drew itself where the protocol expects it to have received nothing: they consume no enumerated
+/// cell (see `junk`), are left out of the view, and `enumerate_views` checks that no delivered
+/// value and no legitimate PRF value depends on them.
+fn legit_keys(c: &Compiled, ins: &[[PV; 3]], seeds: [[u8; 16]; 3]) -> HashSet<Vec<u8>> {
+    let r = exec3(&c.g, ins, seeds);
+    let mut res = HashSet::new();
+    for n in c.g.get_nodes() {
+        if let Operation::PRF(_, _) = n.get_operation() {
+            let kd = n.get_node_dependencies()[0].clone();
+            let sends = sends_of(&kd);
+            let holders: Vec<usize> = if sends.is_empty() { vec![0, 1, 2] } else { sends.iter().flat_map(|(s, r)| vec![*s as usize, *r as usize]).collect() };
+            for h in holders {
+                if let Some(v) = r.vals[h][kd.get_id() as usize].extract() {
+                    if let Ok(b) = v.access_bytes(|b| Ok(b.to_vec())) { res.insert(b); }
+                }
+            }
+        }
+    }
+    res
+}
+
+fn junk(mode: u8, k: &[u8], iv: u64, n: u64) -> Vec<u8> {
+    (0..n).map(|i| match mode { 0 => 0u8, 1 => 1u8, _ => { let h = k.iter().fold(iv.wrapping_mul(0x9E3779B97F4A7C15) ^ i, |a, b| (a ^ (*b as u64)).wrapping_mul(0x100000001B3)); ((h >> 17) & 1) as u8 } }).collect()
+}
+
+const SEEDS: [[u8; 16]; 3] = [[1u8; 16], [2u8; 16], [3u8; 16]];
+
+fn party_inputs_bits(owners: &[IOStatus], xs: &[u8]) -> Vec<[PV; 3]> {
     // party inputs: real where owned / public, 0 (junk) otherwise; no Shared owners here
-    let ins: Vec<[PV; 3]> = owners.iter().zip(xs.iter()).map(|(o, x)| match o {
+    owners.iter().zip(xs.iter()).map(|(o, x)| match o {
         IOStatus::Public => [PV::Val(bitval(*x)), PV::Val(bitval(*x)), PV::Val(bitval(*x))],
         IOStatus::Party(q) => { let mut a = [PV::Val(bitval(0)), PV::Val(bitval(0)), PV::Val(bitval(0))]; a[*q as usize] = PV::Val(bitval(*x)); a }
         IOStatus::Shared => unreachable!(),
-    }).collect();
+    }).collect()
+}
+
+/// One exact run: tape = assignment of bits to the PRF cells of legitimately held keys, in order
+/// of first use.  Returns the observer's view, its output (if revealed) and, for the junk check,
+/// everything delivered to anyone.
+fn run_view(c: &Compiled, owners: &[IOStatus], revealed: bool, legit: &HashSet<Vec<u8>>, junk_mode: u8, xs: &[u8], tape: u64, observer: usize, ncells: &mut usize) -> (Vec<u8>, Option<Vec<u8>>, Vec<u8>) {
+    let ins = party_inputs_bits(owners, xs);
     let mut table: HashMap<(Vec<u8>, u64), Value> = HashMap::new();
     let mut next = 0usize;
     let mut ideal = |k: &[u8], iv: u64, t: &Type| -> Value {
+        let n: u64 = t.get_dimensions().iter().product();
+        if !legit.contains(k) { return Value::from_flattened_array(&junk(junk_mode, k, iv, n), BIT).unwrap(); }
         let key = (k.to_vec(), iv);
         if let Some(v) = table.get(&key) { return v.clone(); }
-        let n: u64 = t.get_dimensions().iter().product();
         let mut bits = vec![];
         for _ in 0..n { bits.push(((tape >> next) & 1) as u8); next += 1; }
         let v = Value::from_flattened_array(&bits, BIT).unwrap();
@@ -63,25 +106,48 @@ fn run_view(c: &Compiled, p: &Prog, owners: &[IOStatus], xs: &[u8], tape: u64, o
         v
     };
     // fixed, distinct seeds: the keys only serve as identities of the idealised PRF
-    let seeds = [[1u8; 16], [2u8; 16], [3u8; 16]];
-    let r = exec3_with(&c.g, &ins, seeds, Some(&mut ideal));
+    let r = exec3_with(&c.g, &ins, SEEDS, Some(&mut ideal));
     *ncells = std::cmp::max(*ncells, next);
-    // the observer's view: what it receives, plus every PRF value it computes itself
+    // the observer's view: what it receives, plus every PRF value it computes on a key it holds
     let mut view: Vec<u8> = vec![];
-    let bits_of = |pv: &PV, t: &Type| -> Vec<u8> { match pv.extract() { Some(v) => if t.is_scalar() { vec![v.to_u8(BIT).unwrap_or(9)] } else if t.is_array() && t.get_scalar_type() == BIT { v.to_flattened_array_u8(t.clone()).unwrap_or(vec![9]) } else { vec![] }, None => vec![8] } };
+    let mut all_deliveries: Vec<u8> = vec![];
+    let bits_of = |pv: &PV, t: &Type| -> Vec<u8> { match pv.extract() { Some(v) => flatten_bits(&v, t), None => vec![8] } };
     let nodes = c.g.get_nodes();
     for (nid, _s, rcv, pv) in r.deliveries.iter() {
-        if *rcv as usize == observer { view.extend(bits_of(pv, &nodes[*nid as usize].get_type().unwrap())); view.push(7); }
+        let t = nodes[*nid as usize].get_type().unwrap();
+        let is_key = t.is_array() && t.get_shape() == vec![128];
+        if !is_key { all_deliveries.extend(bits_of(pv, &t)); all_deliveries.push(7); }
+        if *rcv as usize == observer { view.extend(bits_of(pv, &t)); view.push(7); }
     }
     for n in nodes.iter() {
-        if let Operation::PRF(_, t) = n.get_operation() { view.extend(bits_of(&r.vals[observer][n.get_id() as usize], &t)); }
+        if let Operation::PRF(_, t) = n.get_operation() {
+            let kd = n.get_node_dependencies()[0].get_id() as usize;
+            for q in 0..3usize {
+                let holds = r.vals[q][kd].extract().and_then(|v| v.access_bytes(|b| Ok(b.to_vec())).ok()).map(|b| legit.contains(&b)).unwrap_or(false);
+                if holds {
+                    let b = bits_of(&r.vals[q][n.get_id() as usize], &t);
+                    if q == observer { view.extend(b.clone()); }
+                    all_deliveries.extend(b);
+                }
+            }
+        }
     }
-    let _ = p;
     let oid = c.g.get_output_node().unwrap().get_id() as usize;
     // a shared output is a tuple of shares (no party receives an output value then)
-    let out_scalar = c.g.get_output_node().unwrap().get_type().map(|t| t.is_scalar()).unwrap_or(false);
-    let outv = if out_scalar { r.vals[observer][oid].extract().and_then(|v| v.to_u8(BIT).ok()) } else { None };
-    (view, outv)
+    let out_t = c.g.get_output_node().unwrap().get_type().unwrap();
+    let outv = if revealed { r.vals[observer][oid].extract().map(|v| flatten_bits(&v, &out_t)) } else { None };
+    (view, outv, all_deliveries)
+}
+
+/// all bits of a value of a bit-typed (possibly composite) type, in order
+fn flatten_bits(v: &Value, t: &Type) -> Vec<u8> {
+    match t {
+        Type::Scalar(_) => vec![v.to_u8(BIT).unwrap_or(9)],
+        Type::Array(_, _) => v.to_flattened_array_u8(t.clone()).unwrap_or(vec![9]),
+        Type::Tuple(ts) => match v.to_vector() { Ok(vs) if vs.len() == ts.len() => vs.iter().zip(ts.iter()).flat_map(|(x, tt)| flatten_bits(x, tt)).collect(), _ => vec![9] },
+        Type::Vector(n, tt) => match v.to_vector() { Ok(vs) if vs.len() as u64 == *n => vs.iter().flat_map(|x| flatten_bits(x, tt)).collect(), _ => vec![9] },
+        Type::NamedTuple(ts) => match v.to_vector() { Ok(vs) if vs.len() == ts.len() => vs.iter().zip(ts.iter()).flat_map(|(x, (_, tt))| flatten_bits(x, tt)).collect(), _ => vec![9] },
+    }
 }
 
 pub fn enumerate_views(kind: usize, owners: &[IOStatus], outs: &[IOStatus], out: &mut Out, max_cells: usize) {
@@ -89,25 +155,42 @@ pub fn enumerate_views(kind: usize, owners: &[IOStatus], outs: &[IOStatus], out:
     let (mname, mode) = inline_modes()[0].clone();
     let desc0 = json!({"program": kind, "owners": owners.iter().map(status_str).collect::<Vec<_>>(), "outputs": outs.iter().map(status_str).collect::<Vec<_>>(), "inline": mname});
     let c = match compile(&p, owners, outs, mode) { Outcome::Ok(c) => c, _ => { out.stat("compile:notOk"); return; } };
+    if std::env::var("C03_DUMP").is_ok() { eprintln!("enumeration program {} owners {:?} outs {:?}", kind, owners.iter().map(status_str).collect::<Vec<_>>(), outs.iter().map(status_str).collect::<Vec<_>>()); dump_graph(&c.g); }
     let n_in = owners.len();
+    let revealed = !outs.is_empty();
+    let legit = legit_keys(&c, &party_inputs_bits(owners, &vec![0u8; n_in]), SEEDS);
     // dry run to count the cells
     let mut ncells = 0usize;
-    run_view(&c, &p, owners, &vec![0u8; n_in], 0, 0, &mut ncells);
+    run_view(&c, owners, revealed, &legit, 0, &vec![0u8; n_in], 0, 0, &mut ncells);
     out.stat(&format!("cells:{}", ncells));
+    // junk check: nothing that is delivered, and no PRF value on a held key, depends on the values
+    // of PRF evaluations on keys the evaluating party does not legitimately hold
+    {
+        let mut nc = 0usize;
+        let mask = if ncells >= 64 { u64::MAX } else { (1u64 << ncells) - 1 };
+        for probe in 0..6u64 {
+            let tape = probe.wrapping_mul(0x9E3779B97F4A7C15) & mask;
+            let xs: Vec<u8> = (0..n_in).map(|j| ((probe >> j) & 1) as u8).collect();
+            let a = run_view(&c, owners, revealed, &legit, 0, &xs, tape, 0, &mut nc).2;
+            let b = run_view(&c, owners, revealed, &legit, 1, &xs, tape, 0, &mut nc).2;
+            let d = run_view(&c, owners, revealed, &legit, 2, &xs, tape, 0, &mut nc).2;
+            if a != b || a != d { out.stat("enumeration-skipped-junk-prf-value-is-delivered"); return; }
+        }
+    }
     if ncells > max_cells { out.stat("enumeration-skipped-too-many-cells"); return; }
     let ntapes = 1u64 << ncells;
     out.stat_n("exact_executions", ntapes * (1u64 << n_in) * 3);
     // histograms[observer][inputs] : view -> count
     for observer in 0..3usize {
         let mut hists: Vec<HashMap<Vec<u8>, u64>> = vec![];
-        let mut outsv: Vec<Option<u8>> = vec![];
+        let mut outsv: Vec<Option<Vec<u8>>> = vec![];
         for xm in 0..(1u32 << n_in) {
             let xs: Vec<u8> = (0..n_in).map(|j| ((xm >> j) & 1) as u8).collect();
             let mut h = HashMap::new();
             let mut ov = None;
             for tape in 0..ntapes {
                 let mut nc = 0;
-                let (v, o) = run_view(&c, &p, owners, &xs, tape, observer, &mut nc);
+                let (v, o, _) = run_view(&c, owners, revealed, &legit, 0, &xs, tape, observer, &mut nc);
                 *h.entry(v).or_insert(0) += 1;
                 ov = o;
             }
@@ -248,14 +331,19 @@ pub fn run(tier: &str, seed: u64, out: &mut Out) {
     maskcheck_cases(tier, seed, out);
     let cfgs: Vec<(usize, Vec<IOStatus>, Vec<IOStatus>)> = vec![
         (2, vec![IOStatus::Party(0), IOStatus::Party(1)], vec![IOStatus::Party(2)]),
+        (4, vec![IOStatus::Party(0), IOStatus::Party(1), IOStatus::Public], vec![IOStatus::Party(2)]),
         (2, vec![IOStatus::Party(0), IOStatus::Party(1)], vec![IOStatus::Party(0)]),
         (0, vec![IOStatus::Party(0), IOStatus::Party(1)], vec![IOStatus::Party(2)]),
         (0, vec![IOStatus::Party(1), IOStatus::Party(2)], vec![IOStatus::Party(1)]),
         (0, vec![IOStatus::Party(0), IOStatus::Public], vec![IOStatus::Party(1), IOStatus::Party(2)]),
         (1, vec![IOStatus::Party(0), IOStatus::Party(1), IOStatus::Party(2)], vec![IOStatus::Party(0)]),
         (3, vec![IOStatus::Party(0), IOStatus::Party(1), IOStatus::Party(2)], vec![]),
+        (4, vec![IOStatus::Party(0), IOStatus::Party(1), IOStatus::Party(2)], vec![IOStatus::Party(2)]),
+        (5, vec![IOStatus::Party(1), IOStatus::Party(2), IOStatus::Party(0)], vec![IOStatus::Party(0)]),
+        (6, vec![IOStatus::Party(0), IOStatus::Party(1), IOStatus::Party(2)], vec![IOStatus::Party(1)]),
+        (7, vec![IOStatus::Party(0), IOStatus::Party(1), IOStatus::Party(2)], vec![IOStatus::Party(2)]),
     ];
-    let (take, max_cells) = match tier { "thorough" => (cfgs.len(), 18), "search" => (cfgs.len(), 20), _ => (3, 13) };
+    let (take, max_cells) = match tier { "thorough" => (cfgs.len(), 18), "search" => (cfgs.len(), 20), _ => (4, 13) };
     for (kind, owners, outs) in cfgs.into_iter().take(take) {
         enumerate_views(kind, &owners, &outs, out, max_cells);
     }
